@@ -49,6 +49,7 @@ type c09Node struct {
 	parked     []*c09Parked
 	txs        map[common.Hash]*types.Transaction
 	lastTx     *types.Transaction
+	traceMode  int  // debug_traceTransaction: 0 = method not found (no debug API), 1 = ok, 2 = error
 	ignoreCtx  bool // function mocks do not look at ctx for batch / receipt calls
 	activityAt time.Time
 	// what the node itself answered (wire truth), recorded at answer time: the recording wrapper
@@ -219,7 +220,7 @@ func (m *c09MockEVM) BatchCallContext(ctx context.Context, b []rpc.BatchElem) er
 	return nil
 }
 func (m *c09MockEVM) NetworkID(ctx context.Context) (*big.Int, error) { return big.NewInt(1337), nil }
-func (m *c09MockEVM) BlockNumber(ctx context.Context) (uint64, error)  { return m.n.ansBlockNumber(ctx) }
+func (m *c09MockEVM) BlockNumber(ctx context.Context) (uint64, error) { return m.n.ansBlockNumber(ctx) }
 func (m *c09MockEVM) PendingNonceAt(ctx context.Context, a common.Address) (uint64, error) {
 	m.n.mu.Lock()
 	defer m.n.mu.Unlock()
@@ -228,8 +229,12 @@ func (m *c09MockEVM) PendingNonceAt(ctx context.Context, a common.Address) (uint
 func (m *c09MockEVM) NonceAt(ctx context.Context, a common.Address, b *big.Int) (uint64, error) {
 	return m.n.ansNonceAt(ctx)
 }
-func (m *c09MockEVM) SuggestGasPrice(ctx context.Context) (*big.Int, error)  { return big.NewInt(100), nil }
-func (m *c09MockEVM) SuggestGasTipCap(ctx context.Context) (*big.Int, error) { return big.NewInt(2), nil }
+func (m *c09MockEVM) SuggestGasPrice(ctx context.Context) (*big.Int, error) {
+	return big.NewInt(100), nil
+}
+func (m *c09MockEVM) SuggestGasTipCap(ctx context.Context) (*big.Int, error) {
+	return big.NewInt(2), nil
+}
 func (m *c09MockEVM) EstimateGas(ctx context.Context, call ethereum.CallMsg) (uint64, error) {
 	return 21000, nil
 }
@@ -356,6 +361,18 @@ func (n *c09Node) serveOne(ctx context.Context, rq c09Req, inBatch bool) (c09Res
 			return fail()
 		}
 		rs.Result = tx.Hash().Hex()
+	case "debug_traceTransaction":
+		n.mu.Lock()
+		tm := n.traceMode
+		n.mu.Unlock()
+		switch tm {
+		case 1:
+			rs.Result = map[string]interface{}{"failed": true, "gas": 21000, "returnValue": ""}
+		case 2:
+			return fail()
+		default:
+			rs.Error = &c09RPCErr{Code: -32601, Message: "the method debug_traceTransaction does not exist/is not available"}
+		}
 	case "eth_getTransactionByHash":
 		var h common.Hash
 		if len(rq.Params) < 1 || json.Unmarshal(rq.Params[0], &h) != nil {
@@ -730,4 +747,17 @@ func (r *c09Rec) CallContract(ctx context.Context, call ethereum.CallMsg, b *big
 }
 func (r *c09Rec) TransactionByHash(ctx context.Context, h common.Hash) (*types.Transaction, bool, error) {
 	return r.inner.TransactionByHash(ctx, h)
+}
+
+// c09RecDbg is the recording wrapper for an EVM that implements Debugger (the production evm type
+// does): the monitor's type assertion t.client.(Debugger) must see what it would see in production.
+type c09RecDbg struct{ *c09Rec }
+
+func (r *c09RecDbg) TraceTransaction(ctx context.Context, h common.Hash) (*TransactionTrace, error) {
+	r.begin(true)
+	tt, err := r.inner.(Debugger).TraceTransaction(ctx, h)
+	r.mu.Lock()
+	r.end(true)
+	r.mu.Unlock()
+	return tt, err
 }
